@@ -388,3 +388,91 @@ class TupleWire:
 def inline_rx(text, rx_table):
     """replace regex ids by their content so that two numberings can be compared"""
     return re.sub(r'\(regex ([01]) (\d+)\)', lambda m: f'(regex {m.group(1)} {rx_table[int(m.group(2))]})', text)
+
+
+# ---------------------------------------------------------------------------------------------
+# API-level outcomes (C08/C10)
+
+def pval_api(v):
+    """canonical print with *finalised* spans (start.index, end.index)"""
+    if hasattr(v, '_fields') and hasattr(v, '_metadata'):
+        info = v._metadata.position_info
+        sp = ''
+        if info is not None:
+            try:
+                sp = f' (span {info.start.index} {info.end.index})'
+            except AttributeError:
+                sp = f' (rawspan {info[0]} {info[1]})'
+        fs = ''.join(f' ({f} {pval_api(getattr(v, f))})' for f in v._fields)
+        return f'(o {type(v).__name__}{sp}{fs})'
+    if isinstance(v, list):
+        return '(l' + ''.join(' ' + pval_api(x) for x in v) + ')'
+    if isinstance(v, tuple) and not hasattr(v, '_fields'):
+        return '(t' + ''.join(' ' + pval_api(x) for x in v) + ')'
+    return pval(v)
+
+
+def run_real_api(parse, text, pos, full, limit=5.0):
+    """('V', val) | ('P', val, idx) | ('E', idx) | ('X', name); also returns the raw value/exception"""
+    try:
+        with time_limit(limit):
+            v = parse(text, pos, full)
+        return ('V', pval_api(v)), v
+    except Timeout:
+        return ('X', 'Timeout'), None
+    except RecursionError:
+        return ('X', 'RecursionError'), None
+    except Exception as exc:       # noqa: BLE001
+        name = type(exc).__name__
+        if name == 'PartialParseError' and hasattr(exc, 'partial_result'):
+            return ('P', pval_api(exc.partial_result), exc.last_position.index), exc
+        if name == 'ParseError' and hasattr(exc, 'position'):
+            return ('E', exc.position.index), exc
+        return ('X', name), exc
+
+
+def parse_outcomes(item):
+    """'<o> <o> <o> <o>' -> list of outcomes ('V', val) | ('P', val, idx) | ('E', idx|None) | ('X', n) | ('U',)"""
+    out = []
+    s = item.strip()
+    while s:
+        s = s.lstrip()
+        if not s:
+            break
+        if s[0] == 'U':
+            out.append(('U',))
+            s = s[1:]
+            continue
+        depth = 0
+        for i, ch in enumerate(s):
+            if ch == '(':
+                depth += 1
+            elif ch == ')':
+                depth -= 1
+                if depth == 0:
+                    break
+        tok, s = s[1:i], s[i + 1:]
+        kind, rest = tok[0], tok[2:]
+        if kind == 'V':
+            out.append(('V', rest))
+        elif kind == 'P':
+            j = rest.rindex(' ')
+            out.append(('P', rest[:j], int(rest[j + 1:])))
+        elif kind == 'E':
+            out.append(('E', None if rest == '-' else int(rest)))
+        else:
+            out.append(('X', rest))
+    return out
+
+
+def instances(v, acc=None):
+    """every ParsedObject occurrence reachable through fields, lists, tuples (with repetition)"""
+    acc = [] if acc is None else acc
+    if hasattr(v, '_fields') and hasattr(v, '_metadata'):
+        acc.append(v)
+        for f in v._fields:
+            instances(getattr(v, f), acc)
+    elif isinstance(v, (list, tuple)):
+        for x in v:
+            instances(x, acc)
+    return acc
